@@ -12,7 +12,7 @@ Assumptions (DESIGN 6/C11; conformance: bounded/conf_icalendar.py):
   * timedelta(1) is 86400 seconds.
 """
 
-opaque("PropSource", truthy="true")
+opaque("PropSource", attrs={"name": "str"}, truthy="true")
 opaque("Prop", attrs={"dt": "opaque:DT"}, truthy="true")
 opaque("DT", attrs={"time": "opt[opaque:Method]", "tzinfo": "opt[opaque:TZ]"}, as_int="seconds", nonneg=True)
 opaque("Method", truthy="true")
